@@ -49,6 +49,14 @@ EscDQ(v, i) ==
   ELSE <<v[i]>> \o EscDQ(v, i + 1)
 
 \* literal text of atoms: op holds a vocabulary string
+\* endsWithOpenIf (ast.go): the loop over the last sub-statement
+RECURSIVE PEndsInOpenIf(_)
+PEndsInOpenIf(s) ==
+  CASE s.k = "if" -> IF IsNilNode(s.c[3]) THEN TRUE ELSE PEndsInOpenIf(s.c[3])
+    [] s.k = "while" -> ~IsNilNode(s.c[2]) /\ PEndsInOpenIf(s.c[2])
+    [] s.k = "for" -> ~IsNilNode(s.c[4]) /\ PEndsInOpenIf(s.c[4])
+    [] OTHER -> FALSE
+
 RECURSIVE Emit(_), EmitList(_, _), EmitObj(_, _), EmitParams(_, _), EmitStmts(_, _, _)
 \* writeParenthesised: like a GroupedExpression
 Wrap(need, ops) == IF need THEN <<Ru("("), IncO>> \o ops \o <<DecO, Ru(")")>> ELSE ops
@@ -91,7 +99,11 @@ Emit(n) ==
     [] n.k = "blk" ->
          <<Ru("{"), Nl, IncO>> \o EmitStmts(n.c, 1, TRUE) \o <<DecO, Nl, [op |-> "forget"], Ind, Ru("}")>>
     [] n.k = "if" ->
-         <<S("if"), Sp, Ru("(")>> \o Emit(n.c[1]) \o <<Ru(")"), Sp>> \o Emit(n.c[2])
+         <<S("if"), Sp, Ru("(")>> \o Emit(n.c[1]) \o <<Ru(")"), Sp>>
+         \* writeBraced: an else-less `if` at the end of the consequence would take this `else`
+         \o (IF ~IsNilNode(n.c[3]) /\ ~IsNilNode(n.c[2]) /\ PEndsInOpenIf(n.c[2])
+             THEN <<Ru("{"), Nl, IncO, Ind>> \o Emit(n.c[2]) \o <<DecO, Nl, [op |-> "forget"], Ind, Ru("}")>>
+             ELSE Emit(n.c[2]))
          \o (IF IsNilNode(n.c[3]) THEN <<>> ELSE <<S(" else ")>> \o Emit(n.c[3]))
     [] n.k = "while" -> <<S("while"), Sp, Ru("(")>> \o Emit(n.c[1]) \o <<Ru(")"), Sp>> \o Emit(n.c[2])
     [] n.k = "for" ->
